@@ -225,7 +225,23 @@ def padNul (w : Nat) (s : Bytes) : Bytes := s ++ List.replicate (w - s.length) 0
 /-- zero padded octal number with a terminating NUL in a field of width `w` (what tar writers emit) -/
 def octField (w n : Nat) : Bytes := toOct (w - 1) n ++ [0]
 
-/-! ## tar (`format/tar/tar.go:33-109`) -/
+/-! ## tar (`format/tar/tar.go`) -/
+
+/-- `fieldNumber` (tar.go, after the base-256 repair): a numeric header field is octal text
+    (`TryStrSymParseUint(8)` on the bytes up to the first NUL) unless its first byte has the high bit set; then it is a big
+    endian base-256 number (GNU / star extension): high bit cleared, the last eight bytes are the value, which must be at most
+    `math.MaxInt64` with all bytes before them zero; otherwise there is no symbolic value -/
+def tarNum (f : Bytes) : Option Nat :=
+  match f with
+  | [] => parseOct (cstr [])
+  | b :: r =>
+    if b.toNat < 128 then parseOct (cstr f) else
+    let bs := UInt8.ofNat (b.toNat % 128) :: r
+    let n := beNat (bs.drop (bs.length - 8))
+    if n < 2 ^ 63 ∧ (bs.take (bs.length - 8)).all (· == 0) then some n else none
+
+/-- a 12 byte numeric field in base-256 -/
+def b256Field (n : Nat) : Bytes := 0x80 :: toBE 11 n
 
 structure TarEntry where
   name : Bytes
@@ -261,7 +277,7 @@ def parseTarEntry (pos : Nat) (bs : Bytes) : Option (TarEntry × Bytes) := do
   let (uid, bs) ← takeN 8 bs
   let (gid, bs) ← takeN 8 bs
   let (size, bs) ← takeN 12 bs
-  let size ← parseOct (cstr size)             -- tar.go:57-60 `could not decode size`
+  let size ← tarNum size                      -- `could not decode size`
   let (mtime, bs) ← takeN 12 bs
   let (chksum, bs) ← takeN 8 bs
   let (typeflag, bs) ← takeN 1 bs
@@ -279,11 +295,11 @@ def parseTarEntry (pos : Nat) (bs : Bytes) : Option (TarEntry × Bytes) := do
   let (data, bs) ← takeN size bs
   let dp := blockPad (pos + 500 + hp + size)
   let (_, bs) ← takeN dp bs
-  pure ({ name := trimCut name, mode := parseOct (cstr mode), uid := parseOct (cstr uid), gid := parseOct (cstr gid),
-          size := size, mtime := parseOct (cstr mtime), chksum := parseOct (cstr chksum), typeflag := trimCut typeflag,
+  pure ({ name := trimCut name, mode := tarNum mode, uid := tarNum uid, gid := tarNum gid,
+          size := size, mtime := tarNum mtime, chksum := parseOct (cstr chksum), typeflag := trimCut typeflag,
           linkname := trimCut linkname, magic := trimCut magic, version := parseOct (cstr version),
-          uname := trimCut uname, gname := trimCut gname, devmajor := parseOct (cstr devmajor),
-          devminor := parseOct (cstr devminor), pfx := trimCut pfx, hpad := hp, data := data, dpad := dp }, bs)
+          uname := trimCut uname, gname := trimCut gname, devmajor := tarNum devmajor,
+          devminor := tarNum devminor, pfx := trimCut pfx, hpad := hp, data := data, dpad := dp }, bs)
 
 def allZero (bs : Bytes) : Bool := bs.all (· == 0)
 
@@ -331,10 +347,13 @@ structure TarMember where
   devminor : Nat
   pfx : Bytes
   data : Bytes
+  b256 : Bool := false      -- the writer stores the size in base-256 (it must, from 8 GiB on)
 deriving Repr, DecidableEq
 
+def tarSizeField (m : TarMember) : Bytes := if m.b256 then b256Field m.data.length else octField 12 m.data.length
+
 def writeTarHeader (m : TarMember) : Bytes :=
-  padNul 100 m.name ++ octField 8 m.mode ++ octField 8 m.uid ++ octField 8 m.gid ++ octField 12 m.data.length ++
+  padNul 100 m.name ++ octField 8 m.mode ++ octField 8 m.uid ++ octField 8 m.gid ++ tarSizeField m ++
   octField 12 m.mtime ++ octField 8 m.chksum ++ [m.typeflag] ++ padNul 100 m.linkname ++ padNul 6 ustar ++
   octField 2 m.version ++ padNul 32 m.uname ++ padNul 32 m.gname ++ octField 8 m.devmajor ++ octField 8 m.devminor ++
   padNul 155 m.pfx ++ List.replicate 12 0
